@@ -4,6 +4,7 @@ import (
 	"crypto/elliptic"
 	"errors"
 	"fmt"
+	"math"
 	"math/big"
 	"runtime/metrics"
 	"time"
@@ -70,6 +71,59 @@ func canonicalise(c *CB) {
 			x.sortCanonical()
 		}
 	})
+}
+
+// semanticCanon rewrites a tree to the canonical DAG-CBOR form of the data a
+// lenient decoder reads from it: unknown tags dropped (42 = link is kept),
+// undefined read as null, float16/32 widened, definite lengths, minimal heads,
+// sorted maps. Two byte strings with the same semanticCanon carry the same data.
+func semanticCanon(c *CB) *CB {
+	for c.Major == 6 && c.Arg != 42 && len(c.Kids) == 1 {
+		c = c.Kids[0]
+	}
+	d := *c
+	d.Width, d.Indef = 0, false
+	if d.Major == 7 {
+		switch d.Float {
+		case 32:
+			d.Float, d.Arg = 64, math.Float64bits(float64(math.Float32frombits(uint32(c.Arg))))
+		case 16:
+			d.Float, d.Arg = 64, math.Float64bits(halfToFloat(uint16(c.Arg)))
+		case 0:
+			if d.Arg == 23 {
+				d.Arg = 22
+			}
+		}
+	}
+	if c.Kids != nil {
+		d.Kids = make([]*CB, len(c.Kids))
+		for i, k := range c.Kids {
+			d.Kids[i] = semanticCanon(k)
+		}
+	}
+	if d.Major == 5 {
+		d.sortCanonical()
+	}
+	return &d
+}
+
+func halfToFloat(h uint16) float64 {
+	sign := 1.0
+	if h&0x8000 != 0 {
+		sign = -1
+	}
+	exp := int(h>>10) & 0x1f
+	frac := float64(h & 0x3ff)
+	switch exp {
+	case 0:
+		return sign * frac * math.Pow(2, -24)
+	case 31:
+		if frac == 0 {
+			return sign * math.Inf(1)
+		}
+		return math.NaN()
+	}
+	return sign * (1 + frac/1024) * math.Pow(2, float64(exp-15))
 }
 
 // ------------------------------------------------------------------ guards with a real-time watchdog and an allocation meter
